@@ -186,6 +186,98 @@ def history(cfg, log, async_, rng, n_steps, recs, meta):
         meta.append((name, step))
 
 
+def refresh_history(cfg, log, async_, rng, recs, meta):
+    """a full refresh through the REAL refresh path (request, segmented answer of the simulator, retry machinery of
+    the structure class): one update of the status block whose segment boundary cuts a watched 2-byte item"""
+    from ..transfer import AsyncRig, SyncRig
+    N, S = 1024, 39
+    probe_cls = None
+    from geckolib.driver import GeckoStructure
+    probe = GeckoStructure(None)
+    probe.build_accessors(packs.table(cfg, probe), packs.table(log, probe))
+    two = [a for a in probe.accessors.values() if a.length == 2 and 40 < a.pos < 1000]
+    if not two:
+        return
+    a0 = rng.choice(two)
+    start = (a0.pos + 1) % S
+    length = N - start
+    old = bytes(rng.randrange(256) for _ in range(N))
+    spa = bytearray(rng.randrange(256) for _ in range(N))
+    if rng.random() < 0.5:          # most items silent, the cut item changes in both bytes
+        spa = bytearray(old)
+        for _ in range(rng.randrange(1, 12)):
+            spa[rng.randrange(start, N)] ^= 1 << rng.randrange(8)
+    spa[a0.pos] = (old[a0.pos] + 1) % 256
+    spa[a0.pos + 1] = (old[a0.pos + 1] + 1) % 256
+    spa[:start] = old[:start]
+    spa = bytes(spa)
+    rig = (AsyncRig if async_ else SyncRig)(N, S, 2, start, length, spa, old)
+    try:
+        st = rig.struct
+        st.build_accessors(packs.table(cfg, st), packs.table(log, st))
+        accs = {t: a for t, a in st.accessors.items() if a.pos + a.length <= N}
+        has_units = "TempUnits" in accs
+        tags = [t for t in accs if has_units or type(accs[t]).__name__ != "GeckoTempStructAccessor"]
+        shapes = {t: packs.shape_of(accs[t]) for t in tags}
+        calls = []
+        ops = {t: [] for t in tags}
+
+        def mk(tag):
+            def cb(sender, o, n_):
+                calls.append((tag, 1, o, n_, st.status_block))
+            return cb
+
+        for t in tags:
+            f = mk(t)
+            accs[t].watch(f)
+            ops[t].append({"op": "w", "o": 1})
+            if rng.random() < 0.3:
+                accs[t].watch(f)
+                ops[t].append({"op": "w", "o": 1})
+        guard = 0
+        while not rig.done() and guard < 400:
+            guard += 1
+            rig.collect()
+            us = [d for d in rig.bag if d["m"]["t"] == "U"]
+            vs = sorted([d for d in rig.bag if d["m"]["t"] != "U"], key=lambda x: x["m"].get("idx", 0))
+            if us:
+                rig.serve()
+            elif vs:
+                rig.deliver(vs[0]["m"])
+            else:
+                rig.timeout()
+        new = st.status_block
+        if not rig.ok():
+            raise env.MachineryError("C03 refresh history: the fault-free refresh did not complete")
+        fired = {c[0] for c in calls}
+        changed = [t for t in tags if _word(old, accs[t]) != _word(new, accs[t])]
+        pool = list(dict.fromkeys([t for t in tags if accs[t].pos in (a0.pos, a0.pos + 1)] + sorted(fired) + changed))
+        if len(pool) > 40:
+            keepf = [t for t in pool if accs[t].pos in (a0.pos, a0.pos + 1)]
+            pool = list(dict.fromkeys(keepf + rng.sample(pool, 40)))
+        sel = list(dict.fromkeys(pool + rng.sample(tags, min(3, len(tags)))))
+        unit = "F"
+        if has_units:
+            unit = "C" if accs["TempUnits"].value == "C" else "F"
+        items, index = [], {}
+        for t in sel:
+            a = accs[t]
+            index[t] = len(items) + 1
+            items.append({"tag": t, "pos": a.pos, "shape": shapes[t],
+                          "labels": list(a.items) if isinstance(a.items, list) else [],
+                          "oldw": _word(old, a), "neww": _word(new, a), "ops": list(ops[t]), "unit": unit})
+        crecs = []
+        for (t, oid, o, nw, blk) in calls:
+            if t in index:
+                crecs.append({"item": index[t], "o": oid, "old": _canon(accs[t], shapes[t], o),
+                              "new": _canon(accs[t], shapes[t], nw), "sawnew": blk == new})
+        recs.append({"off": start, "n": length, "items": items, "calls": crecs,
+                     "installed": new == old[:start] + spa[start:start + length] + old[start + length:]})
+        meta.append((f"{cfg['name']}+{log['name']}/{'async' if async_ else 'sync'}/refresh", a0.pos))
+    finally:
+        rig.close()
+
+
 def run(ctx):
     ev = ctx.ev
     rng = env.rng("c03")
@@ -213,13 +305,19 @@ def run(ctx):
     for c, l in sel:
         for async_ in (False, True):
             history(c, l, async_, rng, n_steps, recs, meta)
+    n_patch = len(recs)
+    for c, l in sel[:10 if ctx.quick else len(sel)]:
+        for async_ in (False, True):
+            refresh_history(c, l, async_, rng, recs, meta)
+    ev.cov["refresh_path_updates"] = len(recs) - n_patch
     bad, n = tlc.judge("C03_Judge", recs, "c03", chunk=600, jobs=12, heap="1500m")
     for idx, why in bad:
         name, step = meta[idx]
         r_ = recs[idx]
         inv = sorted({r_["items"][c["item"] - 1]["tag"] for c in r_["calls"]})[:6]
         types = sorted({it["shape"]["type"] for it in r_["items"]})
-        ctx.violation({"clause": why, "structure": name.split("/")[-1]},
+        ctx.violation({"clause": why, "structure": name.split("/")[1],
+                       "path": "refresh" if name.endswith("/refresh") else "patch"},
                       {"where": name, "step": step, "off": r_["off"], "n": r_["n"], "fired": inv, "item_types": types,
                        "items": [{k: v for k, v in it.items() if k != "labels"} for it in r_["items"][:12]],
                        "calls": r_["calls"][:12]})
